@@ -556,11 +556,26 @@ func hostileSource(t *rapid.T) (kind, src string) {
 			fmt.Fprintf(&sb, "\tl%d := n + %d\n", i, i)
 		}
 		sb.WriteString("\treturn ")
+		// pending operands either as left operands of + (the body then starts
+		// with a three-byte constant load) or as leading elements of array
+		// literals (the body starts with a one-byte true/false/undefined
+		// load when there are no locals): where exactly the stack runs out
+		// differs - at a multi-byte instruction, at a one-byte instruction
+		// at offset 0 of the callee, at the call
+		form := rapid.IntRange(0, 3).Draw(t, "pendingForm")
+		closers := ""
 		for i := 0; i < m; i++ {
-			fmt.Fprintf(&sb, "%d + (", i)
+			switch form {
+			case 0:
+				fmt.Fprintf(&sb, "%d + (", i)
+				closers = ")" + closers
+			default:
+				sb.WriteString([]string{"", "[true, ", "[undefined, ", "[false, "}[form])
+				closers = "]" + closers
+			}
 		}
 		sb.WriteString("f(n + 1)")
-		sb.WriteString(strings.Repeat(")", m))
+		sb.WriteString(closers)
 		if m == 0 && rapid.Bool().Draw(t, "nontail") {
 			sb.WriteString(" + 1")
 		}
